@@ -581,7 +581,7 @@ def reject_cases(draw):
     mut = draw(
         st.sampled_from(
             [
-                "none", "version-random", "version-bit", "version-swap-kind", "version-swap-net", "key-prefix", "key-prefix",
+                "none", "version-random", "version-bit", "version-near", "version-near", "version-swap-kind", "version-swap-net", "key-prefix", "key-prefix",
                 "key-body-special", "key-body-special", "key-body-random", "depth0-fingerprint", "depth0-index", "depth0-clean",
                 "chaincode", "fingerprint", "depth", "length", "length", "checksum-bit", "string-edit", "byte-flip", "official",
             ]
@@ -602,6 +602,10 @@ def reject_cases(draw):
         p[0:4] = draw(st.binary(min_size=4, max_size=4))
     elif mut == "version-bit":
         p[draw(st.integers(0, 3))] ^= 1 << draw(st.integers(0, 7))
+    elif mut == "version-near":
+        # a neighbour of the valid version: the Base58 string keeps its xprv/xpub/tprv/tpub look
+        v = (int.from_bytes(p[0:4], "big") + draw(st.sampled_from([-8, -5, -3, -2, -1, 1, 2, 3, 5, 8]))) % 2**32
+        p[0:4] = v.to_bytes(4, "big")
     elif mut == "version-swap-kind":
         p[0:4] = ref.VER[(x.net, "pub" if x.kind == "prv" else "prv")]
     elif mut == "version-swap-net":
